@@ -644,7 +644,8 @@ pub fn run_history<T: Elem>(
                 w.fill_from_slice(&src);
             } else if which == 0 {
                 let w = ring.write_buf().unwrap();
-                w.produce(free + over, &[]);
+                let window = w.len();
+                w.produce(window + over, &[]);
             } else {
                 let (r, _) = ring.read_buf().unwrap();
                 r.consume(used + over);
@@ -932,12 +933,94 @@ pub fn main(opts: &Opts, tags_mode: bool) -> Report {
         }
         rep.set("element_types", "[u8;3] (must be refused)");
         rep.set("element_types", "[u8;12] (must be refused)");
+        if opts.shard % 4 == 1 || opts.nshards == 1 {
+            large_rings(&mut rep, opts.shard_seed());
+        }
         // Exhaustive offset sweep for one-page u32 (thorough, shard 0).
         if opts.thorough() && opts.shard == 0 {
             offset_sweep(&mut rep);
         }
     }
     rep
+}
+
+/// Rings far larger than a default stream (8 and 32 MiB): the write window is all
+/// of the free space, the read window all that was committed, a commit beyond the
+/// window is refused, and the samples come back (probed at both ends and at random).
+fn large_rings(rep: &mut Report, seed: u64) {
+    fn one<T: Elem>(rep: &mut Report, bytes: usize, rng: &mut Rng) -> Option<(String, String)> {
+        let ring = match Ring::<T>::raw(bytes) {
+            Ok(r) => r,
+            Err(e) => {
+                rep.inconclusive(format!("cannot create a {bytes}-byte ring: {e}"));
+                return None;
+            }
+        };
+        let cap = ring.total_size();
+        let mut used = 0usize; // model: ids first..first+used are readable
+        let mut first = 1u64;
+        for round in 0..6 {
+            // write
+            let mut w = ring.write_buf().ok()?;
+            if w.len() != cap - used {
+                return Some(("large-ring-write-window".into(), format!("{}-sample ring of {} with {used} readable offers a write window of {} (free() says {})", cap, T::NAME, w.len(), ring.free())));
+            }
+            let a = match round {
+                0 => cap,
+                1 => 1,
+                _ => rng.range(0, cap - used),
+            };
+            let a = std::cmp::min(a, cap - used);
+            for (i, v) in w.slice()[..a].iter_mut().enumerate() {
+                *v = T::from_id(first + (used + i) as u64);
+            }
+            w.produce(a, &[]);
+            used += a;
+            // read
+            let (r, _) = ring.read_buf().ok()?;
+            if r.len() != used {
+                return Some(("large-ring-read-window".into(), format!("{}-sample ring of {}: {used} committed and unread, read window of {}", cap, T::NAME, r.len())));
+            }
+            if used > 0 {
+                let mut probes = vec![0usize, used - 1, used / 2];
+                for _ in 0..200 {
+                    probes.push(rng.below(used));
+                }
+                for p in probes {
+                    if as_bytes(&r.slice()[p..p + 1]) != as_bytes(&[T::from_id(first + p as u64)]) {
+                        return Some(("large-ring-content".into(), format!("{}-sample ring of {}: readable sample {p} of {used} is not the one committed there", cap, T::NAME)));
+                    }
+                }
+            }
+            let c = match round {
+                0 => cap / 3,
+                5 => used,
+                _ => rng.range(0, used),
+            };
+            r.consume(c);
+            used -= c;
+            first += c as u64;
+            rep.count("large_ring_rounds", 1);
+        }
+        // a commit one beyond the (whole, empty-ring) window must be refused
+        let refused = catch(|| {
+            let w = ring.write_buf().unwrap();
+            let n = w.len();
+            w.produce(n + 1, &[]);
+        })
+        .is_err();
+        if !refused {
+            return Some(("large-ring-oversize-commit-accepted".into(), format!("{}-sample ring of {}: a commit of one more than the write window returned normally", cap, T::NAME)));
+        }
+        None
+    }
+    let mut rng = Rng::new(seed ^ 0xB16);
+    for (bytes, which) in [(8usize << 20, 0), (32 << 20, 1), (16 << 20, 0)] {
+        let f = if which == 0 { one::<u8>(rep, bytes, &mut rng) } else { one::<u32>(rep, bytes, &mut rng) };
+        if let Some((class, d)) = f {
+            rep.violation(format!("C01|raw|{class}"), d, json!({"part": "large-ring", "bytes": bytes}));
+        }
+    }
 }
 
 /// Every ring offset x amounts {0,1,cap-1,cap} for a one-page u32 stream.
